@@ -327,36 +327,41 @@ def integrate (r : Run α) (barrelElevation maxRange recordStep : α) (filterFla
 
 /-! ### zeroing -/
 
-/-- the `while` loop of `zero_angle`; `heightAt e` = height (ft) of the first row of a run to the zero
-    distance with barrel elevation `e`. Returns the elevation or the error. -/
-def zeroLoop (cfg : Config α) (heightAt : α → Except (Err α) α) (heightAtZero zeroDistance : α) :
+/-- the `while` loop of `zero_angle`; `missAt e` = signed miss (ft) of a run with barrel elevation `e`: height of
+    the row interpolated at the zero distance minus the height of the sight line at that row's distance.
+    Returns the elevation or the error. -/
+def zeroLoop (cfg : Config α) (missAt : α → Except (Err α) α) (zeroDistance : α) :
     Nat → Nat → α → α → Except (Err α) α
   | 0, iters, err, el =>
     if cfg.zeroAccuracy < err then .error (.zeroFinding err iters el) else .ok el
   | fuel + 1, iters, err, el =>
     if cfg.zeroAccuracy < err ∧ iters < cfg.maxIterations then
-      match heightAt el with
+      match missAt el with
       | .error e => .error e
-      | .ok height =>
-        let err' := Fn.abs (height - heightAtZero)
+      | .ok miss =>
+        let err' := Fn.abs miss
         if cfg.zeroAccuracy < err' then
-          zeroLoop cfg heightAt heightAtZero zeroDistance fuel (iters + 1) err' (el - (height - heightAtZero) / zeroDistance)
+          zeroLoop cfg missAt zeroDistance fuel (iters + 1) err'
+            (el - miss / zeroDistance * Fn.pow (Fn.cos el) 2.0)
         else .ok el
     else
       if cfg.zeroAccuracy < err then .error (.zeroFinding err iters el) else .ok el
 
+/-- the signed miss `zero_angle` evaluates for elevation `e`: second row of a run to the zero distance recorded
+    with that distance as step (flags RANGE): its height minus `tan(look)` × its own distance (feet) -/
+def zeroMiss (r : Run α) (zeroDistance : α) (fuel skipFuel : Nat) (e : α) : Except (Err α) α :=
+  match integrate r e zeroDistance zeroDistance fRANGE 0.0 fuel skipFuel with
+  | .error x => .error x
+  | .ok rows =>
+    match rows with
+    | _ :: row :: _ => .ok (feetOf row.height - Fn.tan r.proj.lookAngle * feetOf row.distance)
+    | _ => .error .outOfFuel
+
 /-- `zero_angle(shot, distance)`: `distFt` = look-distance in feet -/
 def zeroAngle (r : Run α) (barrelElevation distFt : α) (fuel skipFuel : Nat) : Except (Err α) α :=
   let zeroDistance := Fn.cos r.proj.lookAngle * distFt
-  let heightAtZero := Fn.sin r.proj.lookAngle * distFt
-  let heightAt : α → Except (Err α) α := fun e =>
-    match integrate r e zeroDistance zeroDistance fNONE 0.0 fuel skipFuel with
-    | .error e => .error e
-    | .ok rows =>
-      match rows with
-      | row :: _ => .ok (feetOf row.height)
-      | [] => .error .outOfFuel
-  zeroLoop r.cfg heightAt heightAtZero zeroDistance r.cfg.maxIterations 0 (r.cfg.zeroAccuracy * 2.0) barrelElevation
+  zeroLoop r.cfg (zeroMiss r zeroDistance fuel skipFuel) zeroDistance r.cfg.maxIterations 0
+    (r.cfg.zeroAccuracy * 2.0) barrelElevation
 
 /-! ### building a `Run` from shot data (`_init_trajectory`) -/
 
